@@ -486,6 +486,12 @@ XML_OPS = ["delete", "emptytext", "badtext", "unknowntag", "toolong", "wronglist
 AASNS = "https://admin-shell.io/aas/3/0"
 
 
+def entity_char(ch: str) -> str:
+    """one character inside an entity's replacement text: a character reference is expanded when the entity is DECLARED, so '&' and
+    '<' would be parsed again when the entity is included — they need a second level of escaping"""
+    return f"&#38;#{ord(ch)};" if ch in "&<" else f"&#x{ord(ch):X};"
+
+
 class _Raw:
     """a document that has to be handed over as bytes (it carries a DOCTYPE)"""
     def __init__(self, data: bytes):
@@ -507,7 +513,7 @@ def xml_surface(root, rng: random.Random):
         text = tgt.text
         tgt.text = "@@VFENT@@"
         raw = etree.tostring(root, encoding="unicode")
-        esc = "".join(f"&#x{ord(ch):X};" for ch in text)
+        esc = "".join(entity_char(ch) for ch in text)
         data = ('<?xml version="1.0"?><!DOCTYPE x [<!ENTITY vf "' + esc + '">]>' + raw.replace("@@VFENT@@", "&vf;")).encode("utf-8")
         return _Raw(data), how
     new = etree.Element(root.tag, nsmap={None if how == "default" else "x": AASNS})
